@@ -12,6 +12,27 @@ COMMON_NOTE = ('Trusted base: Lean 4.33 kernel (thorough tier also leanchecker);
 
 CHECKS = collections.OrderedDict()
 
+CHECKS['C05'] = dict(
+    text=('Lean 4 theorems (XL.Props.C05): stretch (a scalar, a single row, a single column stretch; a full array is read in '
+          'place), compatible_shapes / dim_rule (numpy broadcasting of shapes), elementwise (for ANY element function of ANY '
+          'number of arguments over compatible shapes, element (i,j) of the result is the function of the picked elements), '
+          'operator_elementwise (every binary operator), incompatible_iff (the broadcast error exactly on incompatible '
+          'shapes), arity_irrelevant (appending any number of ignored scalar arguments gives the same array), '
+          'fit_spec_partial + fit_spec_same_shape (a scalar fills, a single row/column repeats, surplus is dropped, unreached '
+          'cells get #N/A — for every value whose element count differs from the destination\'s or whose shape equals it), '
+          'fit_sizeeq_counterexample (the excluded class: the code refills row-major; known finding fit-sizeeq). The check '
+          'evaluates array formulas (operators, IF, IFS, IFERROR, IFNA, ABS, NOT, ISERROR, unary) over all shape classes and '
+          'destination shapes through ExcelModel against the Lean model; ~70 element-wise library functions on arrays against '
+          'their own scalar results position by position; CONCATENATE / IFS / SWITCH with 1..40 arguments; and '
+          'Ranges().push(ref, value).value on ALL source x destination shapes <= 4x4 (ndarray and Array) against the Lean fit '
+          'and the stated rule.'),
+    design='DESIGN.md §3 C05, §9',
+    note=COMMON_NOTE + 'numpy is external (np.vectorize, reshape, broadcasting): mapN/fit model its observable rule. ISERROR at '
+         'the top of a formula fills unreached cells with TRUE (TrueArray, Excel pads the argument with #N/A first): modelled '
+         '(fillOf). Incompatible shapes raise BroadcastError out of calculate(): outside this property. Fixed by this check: '
+         'f30699a (>= 32 arguments), the element-exception repair. Known finding: fit-sizeeq.',
+    technique='Lean 4 proof (broadcast map is pointwise for any arity; fit rule) + correspondence on array formulas and on all shape pairs + position-by-position oracle on the implementation')
+
 CHECKS['C06'] = dict(
     text=('Lean 4 theorems over unbounded coordinates and arbitrary area lists for the model of _intersect, _split, '
           'Ranges & : | - simplify/_merge (XL.Props.C06: inter_cells, inter_null, interAreas_cells, range_bounding, '
